@@ -168,6 +168,27 @@ def _may_fork(node):
     return False
 
 
+class _IterLocalUsed(Exception):
+    pass
+
+
+class _IterLocal:
+    """placeholder for an argument that denotes an object created inside the loop iteration"""
+
+    def __getattr__(self, k):
+        raise _IterLocalUsed(k)
+
+    def __getitem__(self, k):
+        raise _IterLocalUsed(k)
+
+
+class _UnknownArg:
+    """placeholder for an argument that cannot be evaluated at the loop head"""
+
+    def __getattr__(self, k):
+        raise AttributeError('argument not evaluable at the loop head (.%s)' % k)
+
+
 class Outcome:
     def __init__(self, kind, state, value=None):
         self.kind, self.state, self.value = kind, state, value     # kind: normal | return | raise | break
@@ -431,6 +452,22 @@ class Executor:
             self.havoc(node.body, sa, extra=[var])
             self.havoc_mark(sa, state)
             sa.env[var] = lo + n * step
+            # variables first bound inside the body exist after the loop iff it ran at least once: reading one is an obligation
+            def _mu(x):
+                return isinstance(x, tuple) and len(x) == 3 and x[0] == 'maybe-unbound'
+            done_mu = set()
+            for o in body_outs:
+                if o.kind == 'normal':
+                    for nm, val in o.state.env.items():
+                        pre = state.env.get(nm)
+                        if nm != var and nm not in done_mu and (nm not in state.env or _mu(pre)) and not _mu(val):
+                            done_mu.add(nm)
+                            self._rebound = {nm}
+                            try:
+                                cond = z3.Or(pre[1], n > 0) if _mu(pre) else n > 0
+                                sa.env[nm] = ('maybe-unbound', cond, self.havoc_value(val, sa, nm))
+                            finally:
+                                self._rebound = ()
             for lbl, g in inv(View(sa, self), lo + n * step, n):
                 sa.assume(g)
             # python leaves the loop variable at its last value (if any iteration ran); it is rarely used: havoc it
@@ -440,6 +477,15 @@ class Executor:
         # while loop --------------------------------------------------------------------------------------------------------
         for lbl, g in inv(View(state, self), None, None):
             ctx.oblige(state, 'inv-init[%s]:%s' % (key, lbl), node.lineno, g)
+        # the loop runs at least once iff its test holds in the entry state
+        try:
+            ent = self.eval_forks(node.test, state.clone())
+            ran_once = self.truth(ent[0][1], ent[0][0]) if len(ent) == 1 else None
+            if isinstance(ran_once, bool):
+                ran_once = z3.BoolVal(ran_once)
+        except Unsupported:
+            ran_once = None
+        body_envs = []
         sb = state.clone()
         self.havoc(node.body, sb)
         self.havoc_mark(sb, state)
@@ -455,12 +501,22 @@ class Executor:
                 ctx.reach.append({'key': key, 'line': node.lineno, 'start': start_pc, 'ends': [list(o.state.pc) for o in wouts]})
                 for o in wouts:
                     if o.kind == 'normal':
+                        body_envs.append(o.state.env)
                         for lbl, g in inv(View(o.state, self), None, None):
                             ctx.oblige(o.state, 'inv-pres[%s]:%s' % (key, lbl), node.lineno, g)
                     elif o.kind in ('return', 'raise'):
                         outs.append(o)
                     else:
                         raise Unsupported('break in while loop, line %d' % node.lineno)
+        # variables first bound inside the body exist after the loop iff it ran at least once
+        for env_ in body_envs:
+            for nm, val in env_.items():
+                if nm not in state.env and nm not in sa.env and not (isinstance(val, tuple) and len(val) == 3 and val[0] == 'maybe-unbound'):
+                    self._rebound = {nm}
+                    try:
+                        sa.env[nm] = ('maybe-unbound', ran_once if ran_once is not None else z3.BoolVal(False), self.havoc_value(val, sa, nm))
+                    finally:
+                        self._rebound = ()
         for s, c in self.eval_forks(node.test, sa):
             c = self.truth(c, s)
             _, sf = self.branch(s, c)
@@ -514,6 +570,7 @@ class Executor:
             elif isinstance(n, ast.Call):
                 calls_.append(n)
         done = set()
+        self._havoc_body = list(body)
         self.ctx.muted = True       # the scan only identifies the mutated objects; it generates no obligations
         try:
             self._havoc_objs(objs, state, done)
@@ -529,28 +586,79 @@ class Executor:
             self._rebound = ()
 
     def _havoc_callee_effects(self, calls_, state, done):
-        """lists mutated by contract callees inside the loop body (declared by Contract.mutated)"""
+        """lists mutated by contract callees inside the loop body (declared by Contract.mutated).  Arguments that cannot be
+        evaluated at the loop head (variables bound later in the body) are passed as None; if the callee's `mutated` needs one
+        of them the function is reported as outside the subset - effects are never skipped silently."""
         from vt.e1 import calls as C
+        from vt.e1.contract import Contract as _C
         reg = self.ctx.registry
+
+        body_nodes = getattr(self, '_havoc_body', [])
+
+        def iteration_local(name):
+            """every assignment to `name` in the loop body yields an object created in the iteration (a copy, TT arithmetic) or the
+            same object again (a call that receives `name`): nothing that exists at the loop head is reached through it"""
+            rhs = []
+            for st_ in body_nodes:
+                for n_ in ast.walk(st_):
+                    if isinstance(n_, ast.Assign) and any(isinstance(t, ast.Name) and t.id == name for t in n_.targets):
+                        rhs.append(n_.value)
+                    elif isinstance(n_, ast.AugAssign) and isinstance(n_.target, ast.Name) and n_.target.id == name:
+                        rhs.append(n_.value)
+            if not rhs:
+                return False
+            for e in rhs:
+                if isinstance(e, ast.BinOp):
+                    continue
+                if isinstance(e, ast.Call):
+                    if isinstance(e.func, ast.Attribute) and e.func.attr == 'copy':
+                        continue
+                    names = {x.id for x in ast.walk(e) if isinstance(x, ast.Name)}
+                    if name in names:
+                        continue
+                return False
+            return True
+
+        def safe(node):
+            try:
+                return self.ev(node, state)
+            except Exception:
+                if isinstance(node, ast.Name) and node.id not in state.env and iteration_local(node.id):
+                    return _IterLocal()
+                return _UnknownArg()
         for n in calls_:
             c = None
             args = None
-            try:
-                if isinstance(n.func, ast.Name) and ('fn:' + n.func.id) in reg:
-                    c = reg['fn:' + n.func.id]
-                    args = [self.ev(a, state) for a in n.args]
-                elif isinstance(n.func, ast.Attribute):
-                    recv = self.ev(n.func.value, state)
-                    if isinstance(recv, STT) and ('TT.' + n.func.attr) in reg:
-                        c = reg['TT.' + n.func.attr]
-                        args = [recv] + [self.ev(a, state) for a in n.args]
-                if c is None:
+            if isinstance(n.func, ast.Name) and ('fn:' + n.func.id) in reg:
+                c = reg['fn:' + n.func.id]
+                if type(c).mutated is _C.mutated:
                     continue
-                kw = {k.arg: self.ev(k.value, state) for k in n.keywords if k.arg}
-                A = c.bind(args, kw)
-            except Exception:
+                args = [safe(a) for a in n.args]
+            elif isinstance(n.func, ast.Attribute):
+                recv = safe(n.func.value)
+                if isinstance(recv, STT) and ('TT.' + n.func.attr) in reg:
+                    c = reg['TT.' + n.func.attr]
+                    if type(c).mutated is _C.mutated:
+                        continue
+                    args = [recv] + [safe(a) for a in n.args]
+                elif isinstance(recv, SModule) and ('fn:' + n.func.attr) in reg:
+                    c = reg['fn:' + n.func.attr]
+                    if type(c).mutated is _C.mutated:
+                        continue
+                    args = [safe(a) for a in n.args]
+            if c is None:
                 continue
-            for lst in c.mutated(A):
+            kw = {k.arg: safe(k.value) for k in n.keywords if k.arg}
+            try:
+                A = c.bind(args, kw)
+                muts = list(c.mutated(A))
+            except Unsupported:
+                raise
+            except _IterLocalUsed:
+                continue            # the mutated lists belong to an object created inside the iteration
+            except Exception as e:
+                raise Unsupported('cannot determine what %s mutates at the head of the loop (line %d): %r' % (c.name, n.lineno, e))
+            for lst in muts:
                 if isinstance(lst, SList) and id(lst) not in done:
                     done.add(id(lst))
                     self.havoc_list(lst, state, False)
@@ -626,6 +734,12 @@ class Executor:
             n = SList(v.ref, v.length, v.fn, None if v.items is None else list(v.items), v.kind)
             self.havoc_list(n, state, grows=True)
             return n
+        if getattr(self.ctx.contract, 'var_kinds', {}).get(nm) == 'optional-tt' and nm in getattr(self, '_rebound', ()):
+            # declared by the contract: None before the loop, possibly a tensor train after some iteration
+            from vt.e1.contract import mk_fresh_tt
+            t = mk_fresh_tt(state, nm)
+            state.assume(z3.And(t.ref >= 0, t.row_dims.ref >= 0, t.col_dims.ref >= 0, t.ranks.ref >= 0, t.cores.ref >= 0))
+            return ('optional-tt', fresh(nm + '_defined', 'bool'), t)
         if isinstance(v, STT) and nm in getattr(self, '_rebound', ()):
             # the variable is *rebound* in the loop body (x = f(x)): at the head of an arbitrary iteration it refers to an unknown
             # tensor train - only the loop invariant says anything about it
@@ -651,6 +765,16 @@ class Executor:
             obj = self.ev(tgt.value, state)
             if isinstance(obj, (STT, SObj)):
                 self.frame_obj(obj, state, node.lineno, 'attribute %s' % tgt.attr)
+                kinds = getattr(self.ctx.contract, 'list_kinds', {})
+                key = '%s.%s.cores' % (ast.unparse(tgt.value), tgt.attr)
+                if isinstance(v, STT) and kinds.get(key) == 'arr5' and v.cores.kind == 'arr':
+                    # this tensor train's first core will hold a 5-d block of eigenvectors: five shape slots per core from now on
+                    from vt.e1.values import widen5
+                    cs = v.cores
+                    cs.to_fn()
+                    old = cs.fn
+                    cs.fn = lambda j, old=old: widen5(old(j))
+                    cs.kind = 'arr5'
                 obj.f[tgt.attr] = v
             else:
                 raise Unsupported('attribute store on %s at line %d' % (type(obj).__name__, node.lineno))
@@ -743,6 +867,12 @@ class Executor:
             return v != 0
         if isinstance(v, SList):
             return zi(v.length) > 0 if not is_conc_int(v.length) else v.length > 0
+        if isinstance(v, SArr) and len(v.shape) == 0:
+            return fresh('cond', 'bool')        # a 0-d array / NumPy scalar: data dependent
+        if isinstance(v, SArr):
+            # numpy raises ValueError for arrays with more than one element
+            self.ctx.oblige(state, 'truth-of-array', 0, z3.And(*[x == 1 for x in v.shape]), 'the truth value of an array with more than one element is ambiguous')
+            return fresh('cond', 'bool')
         raise Unsupported('truth value of %s' % type(v).__name__)
 
     def ev(self, node, state):
@@ -768,6 +898,10 @@ class Executor:
     def ex_Name(self, node, state):
         if node.id in state.env:
             v = state.env[node.id]
+            if isinstance(v, tuple) and len(v) == 3 and v[0] == 'maybe-unbound':
+                self.ctx.oblige(state, 'variable-bound', node.lineno, v[1], 'variable %s is only bound inside a loop that may not have run' % node.id)
+                state.env[node.id] = v[2]
+                return v[2]
             if isinstance(v, tuple) and len(v) == 2 and v[0] == 'unknown-after-loop-rebinding':
                 raise Unsupported('variable %s (an empty list before the loop, rebound inside it) is read before it is assigned in the iteration (line %d)' % (node.id, node.lineno))
             return v
@@ -1267,6 +1401,14 @@ def sym_elem_fn(kind, state):
         fo = fresh_fun('own', z3.IntSort(), z3.BoolSort())
         ff = {n: fresh_fun(n, z3.IntSort(), z3.BoolSort()) for n in SArr.FLAGS}
         return lambda j: SArr([f(j) for f in fs], fc(j), fb(j), fk(j), ndim=fnd(j), flags={n: g(j) for n, g in ff.items()}, own=fo(j))
+    if kind == 'arr5':
+        fs = [fresh_fun('bsh%d' % k, z3.IntSort(), z3.IntSort()) for k in range(5)]
+        fnd = fresh_fun('bnd', z3.IntSort(), z3.IntSort())
+        fc = fresh_fun('bcx', z3.IntSort(), z3.BoolSort())
+        fb = fresh_fun('bbuf', z3.IntSort(), z3.IntSort())
+        fk = fresh_fun('bct', z3.IntSort(), z3.BoolSort())
+        ff = {n: fresh_fun('b' + n, z3.IntSort(), z3.BoolSort()) for n in SArr.FLAGS}
+        return lambda j: SArr([f(j) for f in fs], fc(j), fb(j), fk(j), ndim=fnd(j), flags={n: g(j) for n, g in ff.items()})
     if kind.startswith('optarr'):
         nd = int(kind[6:])
         fs = [fresh_fun('osh%d' % k, z3.IntSort(), z3.IntSort()) for k in range(nd)]
@@ -1289,7 +1431,13 @@ class View:
         self.state, self.ex = state, ex
 
     def __getitem__(self, name):
-        return self.state.env[name]
+        v = self.state.env[name]
+        if isinstance(v, tuple) and len(v) == 3 and v[0] == 'maybe-unbound':
+            return v[2]
+        return v
+
+    def has(self, name):
+        return name in self.state.env
 
     def get(self, name, default=None):
         return self.state.env.get(name, default)
